@@ -122,7 +122,8 @@ NestedAnswers == <<
 \* flags <<outer ordered, inner ordered, outer partial, inner partial, missingErr (both levels)>>
 NestedFlags == IF Quick THEN {<<oo, io, op, TRUE, TRUE>> : oo \in BOOLEAN, io \in BOOLEAN, op \in BOOLEAN}
                               \cup {<<FALSE, FALSE, TRUE, FALSE, FALSE>>, <<TRUE, FALSE, TRUE, FALSE, FALSE>>}
-               ELSE {<<oo, io, op, ip, me>> : oo \in BOOLEAN, io \in BOOLEAN, op \in BOOLEAN, ip \in BOOLEAN, me \in BOOLEAN}
+               ELSE {<<oo, io, op, f[1], f[2]>> : oo \in BOOLEAN, io \in BOOLEAN, op \in BOOLEAN,
+                                                    f \in {<<TRUE, TRUE>>, <<TRUE, FALSE>>, <<FALSE, TRUE>>}}
 NestedProblems ==
   SetToSeqR({Prob(G(f[1], f[3], FALSE, f[5], Semi, G(f[2], f[4], FALSE, f[5], Comma, TableSub)), "list",
                   NestedAnswers[a], <<>>, NestedT) : f \in NestedFlags, a \in DOMAIN NestedAnswers})
